@@ -1195,6 +1195,28 @@ def sym_sqrt(x):
     return SF(bsimp(bor(x.nan, x.ninf, neg)), s, x.pinf, False)
 
 
+def _f32_exact(t, depth=0):
+    """is the term certainly representable in float32? (constants that are, results of earlier float32 stores, ite / negation of such)"""
+    if depth > 40:
+        return False
+    if z3.is_rational_value(t):
+        import struct
+        fr = t.as_fraction()
+        try:
+            f = float(fr)
+            return Fraction(struct.unpack('f', struct.pack('f', f))[0]) == fr
+        except (OverflowError, struct.error):
+            return False
+    if z3.is_const(t):
+        return t.decl().name().startswith('f32!')
+    k = t.decl().kind()
+    if k == z3.Z3_OP_ITE:
+        return _f32_exact(t.arg(1), depth + 1) and _f32_exact(t.arg(2), depth + 1)
+    if k == z3.Z3_OP_UMINUS:
+        return _f32_exact(t.arg(0), depth + 1)
+    return False
+
+
 def f32_round(x):
     """opt-in model of storing a symbolic double into a float32 slot: the stored value is some real within a relative
     2^-25 of x (a subset of what round-to-nearest can produce, so every behaviour found is realisable when replayed)"""
@@ -1203,7 +1225,18 @@ def f32_round(x):
     c = as_const(x)
     if c is not None:
         return c
+    # idempotent and functional: a value that is already the result of a float32 store is representable (stored unchanged), and the same
+    # term always rounds to the same stored value
+    key = ('f32', canon(x.v).get_id())
+    hit = EX.apps.get(key)
+    if hit is not None:
+        return SF(x.nan, hit, x.pinf, x.ninf)
+    if _f32_exact(x.v):
+        return x
     r = z3.Real(EX.fresh_name('f32'))
+    EX.apps[key] = r
+    EX.apps[('f32', r.get_id())] = r
+    EX._keep.append(canon(x.v))
     eps = z3.RealVal(Fraction(1, 2 ** 25))
     av = z3.If(x.v >= 0, x.v, -x.v)
     EX.add_axiom(z3.And(r - x.v <= eps * av, x.v - r <= eps * av), 'float32 store: |stored - x| <= 2^-25 |x| (opt-in)')
